@@ -235,7 +235,7 @@ def run_unit(unit, rec):
             if np.max(np.abs(Ym - (lam * Y[:-1] + (1 - lam) * Y[1:]))) > 1e-12:
                 _v(rec, "b", dict(sig, api="barycentric_to_cartesian", what="affine", variant=var), "conversion is not affine", dict(n=n, center=center))
             # c/d: inverse, L1 variants
-            for L1name, L1 in (("none", None), ("one", 1.0), ("scalar", 2.5), ("per-point", 0.5 + 0.25 * np.arange(len(Pn)))):
+            for L1name, L1 in (("none", None), ("one", 1.0), ("scalar", 2.5), ("per-point", 0.5 + 0.25 * np.arange(len(Pn))), ("tiny", 1e-6), ("tiny-per-point", 1e-9 * (1.0 + np.arange(len(Pn)) % 7)), ("huge", 1e9)):
                 rec.path()
                 rec.trans()
                 try:
@@ -247,8 +247,10 @@ def run_unit(unit, rec):
                 exp = Pn * (np.asarray(tot)[..., None] if np.ndim(tot) else tot)
                 for i in range(len(Pn)):
                     rec.distinct((n, var, L1name, i))
-                okc = Xb.shape == exp.shape and np.max(np.abs(Xb - exp)) <= 1e-12 * (1 + np.max(np.abs(exp)))
-                oks = Xb.shape == exp.shape and np.max(np.abs(Xb.sum(1) - np.broadcast_to(tot, (len(Pn),)))) <= 1e-12 * (1 + np.max(np.abs(tot)))
+                # relative to the requested totals (captures may be expressed in any unit)
+                totv = np.broadcast_to(np.asarray(tot, dtype=float), (len(Pn),))
+                okc = Xb.shape == exp.shape and bool(np.all(np.abs(Xb - exp) <= 1e-12 * totv[:, None]))
+                oks = Xb.shape == exp.shape and bool(np.all(np.abs(Xb.sum(1) - totv) <= 1e-12 * totv))
                 rec.outcome("inverse/%s" % ("ok" if okc else "bad"), len(Pn))
                 if not oks:
                     _v(rec, "d", dict(sig, api="cartesian_to_barycentric", what="L1-sum", variant=var + "/" + L1name), "returned coordinates do not sum to the requested L1", dict(n=n, center=center, L1=L1name))
